@@ -48,6 +48,9 @@ Definition stops (construct : Z) (w : nat) (mode variant : Z) : list label :=
   if m 1%Z || m 5%Z then closes
   else if m 2%Z || m 6%Z then [LCancel 0]
   else if m 3%Z then closes ++ [LCancel 0]
+  else if m 10%Z then (if split then [LClose 3] else closes)   (* a downstream stage failed: ReadOne's doClose - the same cancellation as Close *)
+  else if m 11%Z then (let st := (variant mod 10)%Z in
+                       if Z.eqb st 1 then closes else if Z.eqb st 2 then [LCancel 0] else closes ++ [LCancel 0])
   else if m 7%Z || m 8%Z then [LClose 3]       (* Split: output 0 (goroutine 3, context 3) is closed / its context cancelled *)
   else if m 9%Z then [LCancel 1]               (* the context the channel was built with *)
   else if m 4%Z then
@@ -87,8 +90,8 @@ Definition model_outcome (construct : Z) (n w cap k : nat) (mode variant : Z) (r
   | None => None
   | Some (N, s0) =>
       let fuel := 60 * (n + w + 6) + 200 in
-      let s := if Z.eqb mode 0 then run N fuel rot false None s0
-               else if Z.eqb construct 1 && (Z.eqb mode 7 || Z.eqb mode 8)
+      let s := if Z.eqb mode 0 || Z.eqb mode 12 then run N fuel rot false None s0
+               else if Z.eqb construct 1 && (Z.eqb mode 7 || Z.eqb mode 8 || Z.eqb mode 10)
                     then (* Split, one consumer per output: output 0 alone takes k items (it starts the splitter), is stopped,
                             and then everybody runs: the other consumers read until their output ends *)
                          run N fuel (rot + 7) false None (apply N (stops construct w mode variant) (run_only N fuel [1; 3] k s0))
@@ -107,7 +110,7 @@ Definition check_case (c : case) : bool :=
       | None => false
       | Some o =>
           (Z.of_nat (o_leak o) =? leak)%Z && Bool.eqb (o_stuck o) stuck
-          && (if Z.eqb mode 0 then Bool.eqb (o_eof o) eof && eof else true)
+          && (if Z.eqb mode 0 || Z.eqb mode 12 then Bool.eqb (o_eof o) eof && eof else true)
       end
   end.
 
